@@ -8,6 +8,7 @@
 #include <vector>
 #include <random>
 #include <cmath>
+#include <numeric>
 
 #define main m17demod_main
 #include "m17-demod.cpp"
@@ -45,7 +46,8 @@ static double interp(const std::vector<double>& s, double t)
 }
 
 // rx <gain_milli> <dc_1e4> <sigma_1e4> <delay_milli> <ppm> <lead kind> <lead len> <lead level_1e4> <seed> <app handlers 0/1> samples(int16)...
-// lead kinds: 0 none 1 exact zeros 2 gaussian noise 3 constant 4 tone 1 kHz 5 uniform noise
+// lead kinds: 0 none 1 exact zeros 2 gaussian noise 3 constant 4 tone 1 kHz 5 uniform noise; 6..9 exactly periodic tones (table of one
+// period, so that x[i] == x[i - period] bit for bit): 6 = 3600 Hz, 7 = 2400 Hz, 8 = 400 Hz, 9 = 4800 Hz
 // reply: <maxSampleIndex> <maxFramerIndex> <dcd> <demodState> <nsamples> <samples with dcd> <first sample with dcd> | frames: "L b30" / "S cost b18" / "K b6" ... ; or with app handlers: | <stdout bytes> | <stderr text, newlines as \n>
 static std::string rx(const Args& a)
 {
@@ -92,7 +94,12 @@ static std::string rx(const Args& a)
     for (long i = 0; i < leadn; ++i) {
         double x = 0;
         switch (lead) { case 1: x = 0; break; case 2: x = level * nd(g); break; case 3: x = level; break;
-                        case 4: x = level * std::sin(2 * M_PI * 1000.0 * i / 48000.0); break; case 5: x = level * ud(g); break; default: x = 0; }
+                        case 4: x = level * std::sin(2 * M_PI * 1000.0 * i / 48000.0); break; case 5: x = level * ud(g); break;
+                        case 6: case 7: case 8: case 9: {
+                            static const int freq[4] = {3600, 2400, 400, 4800};
+                            int f = freq[lead - 6]; long per = 48000 / std::gcd(48000, f) ; // samples per exact period
+                            x = double(float(level * std::sin(2 * M_PI * double(f) * double(i % per) / 48000.0))); break; }
+                        default: x = 0; }
         if (x > 1) x = 1; if (x < -1) x = -1;
         feed(x);
     }
